@@ -34,8 +34,21 @@ func symbolNeedsQuoting(sym string) bool {
 		return true
 	}
 
+	allDigits := len(sym) > 1 && sym[0] == '$'
 	for i := 1; i < len(sym); i++ {
 		if !isIdentifierPart(int(sym[i])) {
+			return true
+		}
+		if !isDigit(int(sym[i])) {
+			allDigits = false
+		}
+	}
+
+	if allDigits {
+		// '$' followed by digits only is the spelling of a symbol ID. Text of
+		// that shape that symbolIdentifier does not accept (the number does not
+		// fit an int) is ordinary text and has to be quoted.
+		if _, ok := symbolIdentifier(sym); !ok {
 			return true
 		}
 	}
